@@ -11,6 +11,8 @@ What is modelled:
 * `open(output, 'w', encoding='utf-8')` / `open(tmp_file, 'w')` write in text
   mode: `\n` becomes `os.linesep`, then UTF-8 encoding (the locale encoding of
   `emit_c_code`'s `open` is assumed to be UTF-8);
+* an OUTPUT path that already exists is opened with `'w'`: truncated, then
+  written (`writeFileOnto`, `storeAt`);
 * `sys.stdout.write`: CPython creates `sys.stdout` with `newline="\n"`, so no
   newline translation, then the (UTF-8) encoding (`emit_c_code` on a file-like
   target prints nothing; on a path it prints `generating <path>` to stdout,
@@ -133,6 +135,23 @@ def writeFile (linesep : Str) (text : Str) : Except Err Bytes :=
   | none => .error .unicodeEncodeError
   | some bs => .ok bs
 
+/-- `open(path, 'w')` on a path that is absent (`none`) or holds some bytes: the
+file is created, or truncated to length 0 -/
+def openForWriting (_previous : Option Bytes) : Bytes := []
+
+/-- `f.write(bs)` at offset `pos` of a file holding `content`: the bytes are
+stored over what is there; nothing behind them is removed -/
+def storeAt (content : Bytes) (pos : Nat) (bs : Bytes) : Bytes :=
+  content.take pos ++ bs ++ content.drop (pos + bs.length)
+
+/-- `with open(output, 'w', encoding='utf-8') as f: f.write(text)` when the
+output path is in the state `previous` before the command: the bytes of the
+file afterwards -/
+def writeFileOnto (linesep : Str) (previous : Option Bytes) (text : Str) : Except Err Bytes :=
+  match utf8Encode (translateOut linesep text) with
+  | none => .error .unicodeEncodeError
+  | some bs => .ok (storeAt (openForWriting previous) 0 bs)
+
 /-- `sys.stdout.write(text)` (stdout has `newline="\n"`: no translation) -/
 def writeStdout (text : Str) : Except Err Bytes :=
   match utf8Encode text with
@@ -164,6 +183,22 @@ def cliReadSources (gen : Str → Str → Str → Except Err Str) (linesep : Str
   let cdef ← readText cdefFile
   let text ← gen name cdef csrc
   deliver linesep o text
+
+/-- `read-sources` with a path as OUTPUT that is in the state `previous` (absent,
+or a file with any content) before the command -/
+def cliReadSourcesOnto (gen : Str → Str → Str → Except Err Str) (linesep : Str)
+    (previous : Option Bytes) (name : Str) (cdefFile csrcFile : Bytes) : Except Err Bytes := do
+  let csrc ← readText csrcFile
+  let cdef ← readText cdefFile
+  let text ← gen name cdef csrc
+  writeFileOnto linesep previous text
+
+/-- `exec-python` with a path as OUTPUT in the state `previous` -/
+def cliExecPythonOnto (exec : Str → Str → Except Err Str) (linesep : Str)
+    (previous : Option Bytes) (ffiVar : Str) (pyFile : Bytes) : Except Err Bytes := do
+  let src ← readText pyFile
+  let text ← exec src ffiVar
+  writeFileOnto linesep previous text
 
 /-- `ffi = FFI(); ffi.cdef(cdef); ffi.set_source(name, prelude); ffi.emit_c_code(path)`:
 the contents of `path` -/
